@@ -314,7 +314,11 @@ func c09Scenarios(tier string) []*Scenario {
 			fr = append(fr, alpha[i])
 			nm = append(nm, alpha[i].name)
 		}
-		scs = append(scs, c09ServerScenario("C09", "c09/h1s/"+strings.Join(nm, ","), fr, true, Options{Level: "io", Bound: 0}))
+		b := 0
+		if len(h) <= 2 || tier == "thorough" {
+			b = 1 // the peer may also speak before the endpoint has digested the previous frame
+		}
+		scs = append(scs, c09ServerScenario("C09", "c09/h1s/"+strings.Join(nm, ","), fr, true, Options{Level: "io", Bound: b}))
 	}
 	scs = append(scs, c09ClientScenarios(tier)...)
 	return scs
@@ -322,7 +326,7 @@ func c09Scenarios(tier string) []*Scenario {
 
 func init() {
 	register(&PropDef{ID: "C09", Level: "model_checking",
-		Rule:      "bounded-exhaustive frame histories: every sequence of length <= 3 (thorough: plus every length-4 history that first opens a stream) over a 26-frame client->server alphabet (new_stream with reused/negative/unknown ids, empty/malformed/unknown methods, unsupported revisions; message envelopes with wrong sizes; continuation frames; half-close; cancel; absurd window updates; frames with no kind; unknown ids) sent by a scripted raw client to the real tunnel server, and every sequence of length <= 3 over a 22-frame server->client alphabet sent by a scripted raw server to the real tunnel client running one RPC; each history judged against a reference classifier of the documented protocol (tunnel-level violation => tunnel ends with an error; stream-level => only that RPC fails; late frames ignored) plus no panic, no hang, bounded receiver windows and nothing left behind after the peer hangs up",
+		Rule:      "bounded-exhaustive frame histories: every sequence of length <= 3 (thorough: plus every length-4 history that first opens a stream) over a 26-frame client->server alphabet (new_stream with reused/negative/unknown ids, empty/malformed/unknown methods, unsupported revisions; message envelopes with wrong sizes; continuation frames; half-close; cancel; absurd window updates; frames with no kind; unknown ids) sent by a scripted raw client to the real tunnel server, and every sequence of length <= 3 over a 22-frame server->client alphabet sent by a scripted raw server to the real tunnel client running one RPC; each history run with the peer as slow as possible (every frame sent only when the endpoint is quiescent) and, for histories of length <= 2 (quick) / all (thorough), with every single deviation from that (a frame sent early, a thread delayed); each history judged against a reference classifier of the documented protocol (tunnel-level violation => tunnel ends with an error; stream-level => only that RPC fails; late frames ignored) plus no panic, no hang, bounded receiver windows and nothing left behind after the peer hangs up",
 		Globals:   []func(*Scenario, *World, *Exec) []Violation{ProtoMonitor},
 		Scenarios: c09Scenarios})
 }
